@@ -18,7 +18,7 @@ EXPLANATION = (
     "both Class kinds) reach the rejecting error / class difference (strip), ByteSet::remove* (non-matching) or the "
     "error (ban); remove_matching_bytes classifies every Look variant explicitly. (CRLF) both \\r and \\n are stripped "
     "under a CRLF terminator, the second pass running on the first's result, and non-ASCII terminators are rejected "
-    "before any rewriting. (EXACT) exactness bookkeeping: choose() makes both operands inexact on every path, each "
+    "before any rewriting; LineTerminator::as_byte() (which collapses CRLF to \\n) is consulted in the regex crate only on a !is_crlf() edge, and the fixed-strings gate has_line_terminator tests both \\r and \\n under CRLF. (EXACT) exactness bookkeeping: choose() makes both operands inexact on every path, each "
     "repetition arm other than {0,1} and in-limit {n} passes make_inexact, a restarted concat sequence is marked "
     "not-prefix, cross defers to choose when the right side is not a prefix, and union/cross go infinite when over "
     "the total limit. (GATE) no literal extraction without a line terminator, no candidate regex from an infinite or "
@@ -236,7 +236,7 @@ def run(ctx):
             else:
                 r.bad("non_matching|look", "anchor-missing: no match on Look in remove_matching_bytes", fn=f)
 
-    with ctx.rule("C11.CRLF", "CRLF strips both bytes in sequence; non-ASCII terminators rejected first", floor=3, kind="FLOW/GUARD") as r:
+    with ctx.rule("C11.CRLF", "CRLF strips both bytes in sequence; non-ASCII terminators rejected first; as_byte() only off CRLF", floor=6, kind="FLOW/GUARD") as r:
         f = facts.fn(R + "::strip::strip_from_match")
         eb = ExprBuilder(f)
         ASC = R + "::strip::strip_from_match_ascii"
@@ -276,6 +276,59 @@ def run(ctx):
                 r.bad("ascii", "a non-ASCII terminator is not rejected", fn=g, construct="ascii")
         else:
             r.bad("ascii", "the pattern is rewritten before the terminator is checked to be ASCII", fn=g, construct="ascii")
+
+        # as_byte() collapses CRLF to \n: inside the regex crate, where the terminator names bytes a match may not
+        # contain, it may be consulted only where is_crlf() was tested false (strip path and the fixed-strings gate alike)
+        AB = "grep_matcher::LineTerminator::as_byte"
+        n_ab = 0
+        for fn_ in facts.fns_in(R + "::"):
+            cs_ = fn_.calls_to(AB)
+            if not cs_:
+                continue
+            n_ab += 1
+            if fn_.kind == "closure":
+                par = facts.fn(fn_.d["parent"])
+                sites = [bb for bb, j, st in par.stmts() if st["k"] == "assign" and st["rv"].get("closure") == fn_.path]
+            else:
+                par, sites = fn_, [c.bb for c in cs_]
+            swp = cond_switches(par, lambda e: is_call(e, "grep_matcher::LineTerminator::is_crlf"), ExprBuilder(par))
+            key = "asbyte|" + fn_.path.split("::", 1)[1]
+            if sites and swp and not guarded(par, sites, swp, False):
+                r.ok(key, "as_byte() consulted only on the !is_crlf() edge", fn=fn_)
+            else:
+                r.bad(key, "%s consults LineTerminator::as_byte() without excluding CRLF first: under --crlf a \\r in the "
+                      "pattern is neither rejected nor stripped" % fn_.path, fn=fn_, loc=cs_[0].loc, construct="as_byte")
+        hl = facts.fn(R + "::config::has_line_terminator")
+        swh = cond_switches(hl, lambda e: is_call(e, "grep_matcher::LineTerminator::is_crlf"), ExprBuilder(hl))
+        allb = [c for fn_ in facts.with_closures(hl.path) for c in fn_.calls_to("grep_matcher::LineTerminator::as_bytes")]
+        if swh:
+            consts = set()
+            for cl in facts.closures_of(hl.path):
+                sites = [bb for bb, j, st in hl.stmts() if st["k"] == "assign" and st["rv"].get("closure") == cl.path]
+                if sites and not guarded(hl, sites, swh, True):
+                    ebc = ExprBuilder(cl)
+                    for bb, j, st in cl.stmts():
+                        if st["k"] == "assign" and st["rv"]["k"] == "bin" and st["rv"]["op"] == "Eq":
+                            for o in (st["rv"]["a"], st["rv"]["b"]):
+                                v_ = W.const_val(ebc.operand(o))
+                                if v_ is not None:
+                                    consts.add(v_)
+            if {10, 13} <= consts:
+                r.ok("gate|crlf", "has_line_terminator: under CRLF a literal containing \\r or \\n is not a fixed string", fn=hl)
+            else:
+                r.bad("gate|crlf", "has_line_terminator tests only %s under CRLF: a fixed-strings pattern containing the other "
+                      "terminator byte skips stripping and can match the terminator" % sorted(consts), fn=hl, construct="has_line_terminator")
+        elif allb and not any(fn_.calls_to(AB) for fn_ in facts.with_closures(hl.path)):
+            r.ok("gate|crlf", "has_line_terminator tests every byte of as_bytes()", fn=hl)
+        else:
+            r.bad("gate|crlf", "has_line_terminator neither distinguishes CRLF nor tests all of as_bytes()", fn=hl,
+                  construct="has_line_terminator")
+        isf = facts.fn(R + "::config::Config::is_fixed_strings")
+        hc = isf.calls_to(hl.path) + [c for cl in facts.closures_of(isf.path) for c in cl.calls_to(hl.path)]
+        if hc:
+            r.ok("gate|consulted", "is_fixed_strings consults has_line_terminator (%d site(s))" % len(hc), fn=isf, nontrivial=False)
+        else:
+            r.bad("gate|consulted", "is_fixed_strings no longer checks literals for the line terminator", fn=isf)
 
     with ctx.rule("C11.EXACT", "exactness bookkeeping of the inner-literal extractor", floor=9, kind="PASS/GUARD") as r:
         exact_rule(ctx, r)
